@@ -147,6 +147,20 @@ def record(chk: Check, n):
         o = arr.oriented()
         chk.count()
         recs.append(dict(op="oriented", kind=kind, elem=dict(null=False, g=e["g"]), res=geom.from_array(kind, o)[0]))
+    # polygons with MANY holes (perforated plates: 300 and 520 unit holes in a 60 x 60 shell, windings mixed) - ring counters of any width
+    for nh, kind in ((300, "polygon"), (520, "multipolygon")):
+        shell = [[0, 0], [0, 60], [60, 60], [60, 0], [0, 0]]            # clockwise shell: must be reversed
+        holes = []
+        for k in range(nh):
+            x, y = 2 * (k % 29) + 1, 2 * (k // 29) + 1
+            h = [[x, y], [x + 1, y], [x + 1, y + 1], [x, y + 1], [x, y]]
+            holes.append(h if k % 3 else h[::-1])
+        g = [[shell] + holes]
+        e = geom.El(g if kind == "polygon" else g + [[[[70, 0], [72, 0], [72, 2], [70, 0]]]])
+        arr = geom.make_array(kind, [geom.NULL, e], geom.IDENT, "float64")[1:]
+        o = arr.oriented()
+        chk.count()
+        recs.append(dict(op="oriented", kind=kind, elem=dict(null=False, g=e["g"]), res=geom.from_array(kind, o)[0]))
     return recs
 
 
